@@ -1,37 +1,313 @@
-// C14 (and the C15 kernels on the STUN code): harnesses over the REAL QXmppStunMessage::{encode,decode,peekType} and the
-// file-static helpers of QXmppStun.cpp (included so that they are reachable).
+// C14 (and the C15 kernels that live in the STUN code): harnesses over the REAL QXmppStunMessage::{encode,decode,peekType}
+// and the file-static helpers of QXmppStun.cpp (the .cpp is included so that they are reachable).
+// Layout decisions (which attributes, string lengths, key length, fingerprint) are per-instance constants (vp_cfg*, set by
+// cdefs in spec.py); all VALUES are symbolic.  HMAC-SHA1 and CRC-32 are cut at QXmppUtils::generateHmacSha1/generateCrc32
+// (uninterpreted but functionally consistent oracles, see stun_models.c); the harness calls the same oracles for the
+// expected values.  The functions behind the cut are checked in h_utils.cpp.
+#include "QXmppStun_p.h"
+#include "QXmppUtils.h"
+#include "StringLiterals.h"
+#include <QCryptographicHash>
+#include <QDataStream>
+#include <QHostInfo>
+#include <QNetworkInterface>
+#include <QTimer>
+#include <QUdpSocket>
+#include <QVariant>
+#include <sstream>
+#define private public      /* only for CandidatePair (defined in the .cpp): all headers are already included above */
 #include "base/QXmppStun.cpp"
+#undef private
 #include "vp_harness.h"
 extern "C" {
 unsigned vp_cfg0(); unsigned vp_cfg1(); unsigned vp_cfg2(); unsigned vp_cfg3();
 void vp_fresh_bytes(QByteArray *out, unsigned minlen, unsigned maxlen);
+void vp_fresh_ascii(QString *out, unsigned len);           // exactly len units in 0x01..0x7f
 void vp_set_byte(QByteArray *ba, unsigned i, unsigned char v);
 unsigned char vp_byte_at(const QByteArray *ba, unsigned i);
+bool vp_bytes_same(const QByteArray *a, const QByteArray *b);
 void vp_sym_addr4(QHostAddress *a); void vp_sym_addr6(QHostAddress *a);
 extern unsigned vp_hmac_calls, vp_crc_calls;
+void vp_cand_set(QXmppJingleCandidate *c, int type, int component, int priority);
+void vp_fake_transport(void *storage, const QXmppJingleCandidate *local);
 }
 static QByteArray freshBytes(unsigned minlen, unsigned maxlen) { QByteArray b; vp_fresh_bytes(&b, minlen, maxlen); return b; }
+static QString freshAscii(unsigned len) { QString s; vp_fresh_ascii(&s, len); return s; }
+static unsigned u8(const QByteArray &b, unsigned i) { return vp_byte_at(&b, i); }
+static unsigned be16(const QByteArray &b, unsigned i) { return (u8(b, i) << 8) | u8(b, i + 1); }
+static unsigned be32(const QByteArray &b, unsigned i) { return (be16(b, i) << 16) | be16(b, i + 2); }
+static void put16(QByteArray &b, unsigned i, unsigned v) { vp_set_byte(&b, i, (v >> 8) & 0xff); vp_set_byte(&b, i + 1, v & 0xff); }
+// the protected prefix of RFC 5389 section 15.4/15.5: first n bytes with the header length field set to `len`
+static QByteArray patchedPrefix(const QByteArray &b, unsigned n, unsigned len) { QByteArray c = b.left(n); c.detach(); put16(c, 2, len); return c; }
+static bool sameBytesAt(const QByteArray &b, unsigned off, const QByteArray &v) { bool same = true; for (int i = 0; i < v.size(); i++) same = same && (u8(b, off + i) == u8(v, i)); return same; }
 
-extern "C" void h_probe()
+enum { G_INTS = 1, G_ADDR4 = 2, G_ADDR4X = 3, G_ADDR6 = 4, G_ADDR6X = 5, G_STR = 6, G_BYTES = 7, G_ERR = 8, G_ICED = 9, G_EMPTY = 10, G_ADDR6B = 11 };
+
+// ---------------------------------------------------------------------------------------------------------------------------
+// (3) round trip: build through the public setters/fields, encode, check framing + RFC values of MESSAGE-INTEGRITY/FINGERPRINT,
+//     decode under the same key, compare every getter.
+extern "C" void h_rt()
 {
-    unsigned n = vp_cfg0();
-    QByteArray buf = freshBytes(n, n);
-    vp_set_byte(&buf, 2, (n - 20) >> 8); vp_set_byte(&buf, 3, (n - 20) & 0xff);
-    QByteArray key = freshBytes(1, 2);
+    const unsigned grp = vp_cfg0(), keylen = vp_cfg1(), fp = vp_cfg2(), len = vp_cfg3();
+    QByteArray key = freshBytes(keylen, keylen);
     QXmppStunMessage m;
-    bool ok = m.decode(buf, key, nullptr);
-    vp_assert(!ok || vp_hmac_calls > 0, "C15 decode under a key succeeds only with verified MESSAGE-INTEGRITY");
+    m.setType(vp_u16()); m.setCookie(vp_u32()); m.setId(freshBytes(12, 12));
+    QHostAddress a[4]; QString s[3]; QByteArray d[4];
+    if (grp == G_INTS) {
+        m.setChangeRequest(vp_u32()); m.setPriority(vp_u32()); m.setChannelNumber(vp_u16());
+        m.setLifetime(vp_u32()); m.setRequestedTransport(vp_u8());
+        // useCandidate false -> attribute absent: keep the layout concrete by fixing it per instance instead
+        m.useCandidate = (len != 0);
+    } else if (grp == G_ADDR4) {      // ports are fixed non-zero constants here (port == 0 means "absent" to encode and would fork the
+        for (auto &x : a) vp_sym_addr4(&x);   // layout); symbolic ports are covered by h_enc_addr / h_dec_addr
+        m.mappedHost = a[0]; m.mappedPort = 0x1234; m.sourceHost = a[1]; m.sourcePort = 0x0001; m.changedHost = a[2]; m.changedPort = 0xffff; m.otherHost = a[3]; m.otherPort = 0x2112;
+    } else if (grp == G_ADDR4X) {
+        for (auto &x : a) vp_sym_addr4(&x);
+        m.xorMappedHost = a[0]; m.xorMappedPort = 0x2112; m.xorPeerHost = a[1]; m.xorPeerPort = 0x0001; m.xorRelayedHost = a[2]; m.xorRelayedPort = 0xfffe;
+    } else if (grp == G_ADDR6) {
+        vp_sym_addr6(&a[0]); vp_sym_addr6(&a[1]);
+        m.mappedHost = a[0]; m.mappedPort = 0x1234; m.otherHost = a[1]; m.otherPort = 0x8000;
+    } else if (grp == G_ADDR6B) {
+        vp_sym_addr6(&a[0]); vp_sym_addr6(&a[1]);
+        m.sourceHost = a[0]; m.sourcePort = 0x1234; m.changedHost = a[1]; m.changedPort = 0x8000;
+    } else if (grp == G_ADDR6X) {
+        vp_sym_addr6(&a[0]); vp_sym_addr6(&a[1]);
+        m.xorMappedHost = a[0]; m.xorMappedPort = 0x2113; m.xorPeerHost = a[1]; m.xorPeerPort = 0x0100;
+        if (len) { vp_sym_addr6(&a[2]); m.xorRelayedHost = a[2]; m.xorRelayedPort = 0x7fff; }
+    } else if (grp == G_STR) {
+        for (auto &x : s) x = freshAscii(len);
+        m.setRealm(s[0]); m.setSoftware(s[1]); m.setUsername(s[2]);
+    } else if (grp == G_BYTES) {
+        d[0] = freshBytes(len, len); d[1] = freshBytes(len, len); d[2] = freshBytes(8, 8); d[3] = freshBytes(8, 8);
+        m.setData(d[0]); m.setNonce(d[1]); m.setReservationToken(d[2]); m.iceControlling = d[3];
+    } else if (grp == G_ICED) {
+        d[3] = freshBytes(8, 8); m.iceControlled = d[3];
+    } else if (grp == G_ERR) {
+        int code = vp_int(); vp_assume(code >= 300 && code <= 699);      // RFC 5389 15.6: class 3..6, number 0..99
+        m.errorCode = code; s[0] = freshAscii(len); m.errorPhrase = s[0];
+    }
+    const QByteArray e = m.encode(key, fp != 0);
+
+    // framing
+    const unsigned n = e.size();
+    vp_assert(n >= 20 && n % 4 == 0, "C14 encoded size is a multiple of 4");
+    vp_assert(be16(e, 2) == n - 20, "C14 header length field = body length");
+    vp_assert(be16(e, 0) == m.type() && be32(e, 4) == m.cookie() && sameBytesAt(e, 8, m.id()), "C14 header carries type, cookie, id");
+    // RFC 5389 values of MESSAGE-INTEGRITY / FINGERPRINT (positions are concrete: they are the last attributes)
+    unsigned end = n;
+    if (fp) {
+        end = n - 8;
+        vp_assert(be16(e, end) == 0x8028 && be16(e, end + 2) == 4, "C14 FINGERPRINT is the last attribute");
+        const quint32 crc = QXmppUtils::generateCrc32(patchedPrefix(e, end, end - 20 + 8));
+        vp_assert(be32(e, end + 4) == (crc ^ 0x5354554eu), "C14 FINGERPRINT = CRC-32(message up to FINGERPRINT, length adjusted) xor 0x5354554e");
+    }
+    if (keylen) {
+        const unsigned mi = end - 24;
+        vp_assert(be16(e, mi) == 0x0008 && be16(e, mi + 2) == 20, "C14 MESSAGE-INTEGRITY precedes FINGERPRINT / ends the message");
+        const QByteArray h = QXmppUtils::generateHmacSha1(key, patchedPrefix(e, mi, mi - 20 + 24));
+        vp_assert(sameBytesAt(e, mi + 4, h), "C14 MESSAGE-INTEGRITY = HMAC-SHA1(key, message up to the attribute, length adjusted)");
+    }
+
+    QXmppStunMessage r;
+    const bool ok = r.decode(e, key, nullptr);
+    vp_assert(ok, "C14 round trip: own encoding is accepted under the same key");
+    if (!ok) return;
+    vp_assert(r.type() == m.type() && r.cookie() == m.cookie() && r.id() == m.id(), "C14 round trip: type, cookie, id");
+    if (grp == G_INTS) {
+        vp_assert(r.changeRequest() == m.changeRequest(), "C14 round trip: CHANGE-REQUEST");
+        vp_assert(r.priority() == m.priority(), "C14 round trip: PRIORITY");
+        vp_assert(r.useCandidate == m.useCandidate, "C14 round trip: USE-CANDIDATE");
+        vp_assert(r.channelNumber() == m.channelNumber(), "C14 round trip: CHANNEL-NUMBER");
+        vp_assert(r.lifetime() == m.lifetime(), "C14 round trip: LIFETIME");
+        vp_assert(r.requestedTransport() == m.requestedTransport(), "C14 round trip: REQUESTED-TRANSPORT");
+    } else if (grp == G_ADDR4 || grp == G_ADDR6 || grp == G_ADDR6B) {
+        vp_assert(r.mappedHost == m.mappedHost && r.mappedPort == m.mappedPort, "C14 round trip: MAPPED-ADDRESS");
+        vp_assert(r.sourceHost == m.sourceHost && r.sourcePort == m.sourcePort, "C14 round trip: SOURCE-ADDRESS");
+        vp_assert(r.changedHost == m.changedHost && r.changedPort == m.changedPort, "C14 round trip: CHANGED-ADDRESS");
+        vp_assert(r.otherHost == m.otherHost && r.otherPort == m.otherPort, "C14 round trip: OTHER-ADDRESS");
+    } else if (grp == G_ADDR4X || grp == G_ADDR6X) {
+        vp_assert(r.xorMappedHost == m.xorMappedHost && r.xorMappedPort == m.xorMappedPort, "C14 round trip: XOR-MAPPED-ADDRESS");
+        vp_assert(r.xorPeerHost == m.xorPeerHost && r.xorPeerPort == m.xorPeerPort, "C14 round trip: XOR-PEER-ADDRESS");
+        vp_assert(r.xorRelayedHost == m.xorRelayedHost && r.xorRelayedPort == m.xorRelayedPort, "C14 round trip: XOR-RELAYED-ADDRESS");
+    } else if (grp == G_STR) {
+        vp_assert(r.realm() == m.realm(), "C14 round trip: REALM");
+        vp_assert(r.software() == m.software(), "C14 round trip: SOFTWARE");
+        vp_assert(r.username() == m.username(), "C14 round trip: USERNAME");
+    } else if (grp == G_BYTES) {
+        vp_assert(r.data() == m.data(), "C14 round trip: DATA");
+        vp_assert(r.nonce() == m.nonce(), "C14 round trip: NONCE");
+        vp_assert(r.reservationToken() == m.reservationToken(), "C14 round trip: RESERVATION-TOKEN");
+        vp_assert(r.iceControlling == m.iceControlling && r.iceControlled.isEmpty(), "C14 round trip: ICE-CONTROLLING");
+    } else if (grp == G_ICED) {
+        vp_assert(r.iceControlled == m.iceControlled && r.iceControlling.isEmpty(), "C14 round trip: ICE-CONTROLLED");
+    } else if (grp == G_ERR) {
+        vp_assert(r.errorCode == m.errorCode, "C14 round trip: ERROR-CODE number");
+        vp_assert(r.errorPhrase == m.errorPhrase, "C14 round trip: ERROR-CODE reason phrase");
+    }
 }
-extern "C" void h_probe2()
+
+// ---------------------------------------------------------------------------------------------------------------------------
+// symbolic ports (0 excluded): encode half and decode half against the RFC 5389 15.1/15.2 wire layout, IPv4.
+// cfg0: 0 = MAPPED-ADDRESS (plain), 1 = XOR-MAPPED-ADDRESS
+extern "C" void h_enc_addr()
 {
-    QByteArray key = freshBytes(vp_cfg1(), vp_cfg1());
-    QXmppStunMessage m2;
-    m2.setType(vp_u16());
-    m2.setPriority(vp_u32());
-    vp_sym_addr4(&m2.mappedHost); m2.mappedPort = vp_u16();
-    QByteArray e = m2.encode(key, vp_cfg2());
-    QXmppStunMessage m;
-    bool ok = m.decode(e, key, nullptr);
-    vp_assert(ok, "C14 probe");
-    vp_assert(m.priority() == m2.priority(), "C14 probe prio");
+    const bool x = vp_cfg0() != 0;
+    QXmppStunMessage m; m.setId(freshBytes(12, 12));
+    QHostAddress a; vp_sym_addr4(&a); const quint16 port = vp_u16(); const quint32 ip = a.toIPv4Address();
+    if (x) { m.xorMappedHost = a; m.xorMappedPort = port; } else { m.mappedHost = a; m.mappedPort = port; }
+    const QByteArray e = m.encode(QByteArray(), false);
+    if (port == 0) { vp_assert(e.size() == 20, "C14 address with port 0 is not encoded"); return; }
+    vp_assert(e.size() == 32 && be16(e, 2) == 12, "C14 IPv4 address attribute: 12 bytes");
+    vp_assert(be16(e, 20) == (x ? 0x0020u : 0x0001u) && be16(e, 22) == 8 && u8(e, 24) == 0 && u8(e, 25) == 1, "C14 address attribute header: type, length 8, reserved 0, family 1");
+    vp_assert(be16(e, 26) == (x ? (port ^ 0x2112u) : port), "C14 (X-)Port on the wire");
+    vp_assert(be32(e, 28) == (x ? (ip ^ 0x2112A442u) : ip), "C14 (X-)Address on the wire");
+}
+extern "C" void h_dec_addr()
+{
+    const bool x = vp_cfg0() != 0;
+    QByteArray b = freshBytes(32, 32);
+    put16(b, 2, 12); put16(b, 20, x ? 0x0020 : 0x0001); put16(b, 22, 8); vp_set_byte(&b, 25, 1);     // reserved byte 24 stays arbitrary
+    QXmppStunMessage r;
+    const bool ok = r.decode(b, QByteArray(), nullptr);
+    vp_assert(ok, "C14 well-formed IPv4 address attribute is accepted");
+    if (!ok) return;
+    const QHostAddress &h = x ? r.xorMappedHost : r.mappedHost; const quint16 p = x ? r.xorMappedPort : r.mappedPort;
+    vp_assert(p == (x ? (be16(b, 26) ^ 0x2112u) : be16(b, 26)), "C14 decoded port = (X-)Port");
+    vp_assert(h.protocol() == QAbstractSocket::IPv4Protocol && h.toIPv4Address() == (x ? (be32(b, 28) ^ 0x2112A442u) : be32(b, 28)), "C14 decoded address = (X-)Address");
+}
+
+// ---------------------------------------------------------------------------------------------------------------------------
+// (4) integrity / fingerprint acceptance on buffers with a fixed attribute layout; header, attribute LENGTH fields of the
+//     MESSAGE-INTEGRITY/FINGERPRINT attributes and all payload bytes are symbolic; key non-empty (1..2 symbolic bytes).
+// cfg0 = variant, cfg1 = key length bound (0: empty key)
+enum { V_MI = 1, V_MI_FP = 2, V_PRIO_MI = 3, V_USER_MI = 4, V_XADDR_MI = 5, V_UNK_MI = 6, V_MI_PRIO = 7, V_FP = 8, V_MI_MI = 9 };
+extern "C" void h_dec_mi()
+{
+    const unsigned var = vp_cfg0(), kmax = vp_cfg1();
+    QByteArray key = kmax ? freshBytes(1, kmax) : QByteArray();
+    unsigned pre = 0, ptype = 0, plen = 0;          // a first attribute in front of MESSAGE-INTEGRITY
+    if (var == V_PRIO_MI) { ptype = 0x0024; plen = 4; } else if (var == V_USER_MI) { ptype = 0x0006; plen = 4; }
+    else if (var == V_XADDR_MI) { ptype = 0x0020; plen = 8; } else if (var == V_UNK_MI) { ptype = 0x7777; plen = 4; }
+    if (ptype) pre = 4 + plen;
+    const bool hasMi = var != V_FP;
+    unsigned post = 0;                              // an attribute behind MESSAGE-INTEGRITY
+    if (var == V_MI_FP || var == V_MI_PRIO) post = 8; else if (var == V_MI_MI) post = 24; else if (var == V_FP) post = 8;
+    const unsigned mi = 20 + pre, n = mi + (hasMi ? 24 : 0) + post;
+    QByteArray b = freshBytes(n, n);
+    put16(b, 2, n - 20);
+    if (ptype) { put16(b, 20, ptype); put16(b, 22, plen); if (var == V_XADDR_MI) { vp_set_byte(&b, 25, 1); } }
+    if (hasMi) put16(b, mi, 0x0008);                // its length field stays symbolic
+    const unsigned p2 = mi + (hasMi ? 24 : 0);
+    if (var == V_MI_FP || var == V_FP) put16(b, p2, 0x8028);          // length field symbolic
+    if (var == V_MI_PRIO) { put16(b, p2, 0x0024); put16(b, p2 + 2, 4); }
+    if (var == V_MI_MI) { put16(b, p2, 0x0008); put16(b, p2 + 2, 20); }
+
+    QXmppStunMessage r;
+    const bool ok = r.decode(b, key, nullptr);
+
+    bool expect = true;
+    if (hasMi) {
+        const bool lenOk = be16(b, mi + 2) == 20;
+        bool macOk = true;
+        if (!key.isEmpty()) macOk = sameBytesAt(b, mi + 4, QXmppUtils::generateHmacSha1(key, patchedPrefix(b, mi, mi - 20 + 24)));
+        expect = lenOk && macOk;
+    }
+    if (var == V_MI_FP || var == V_FP) {
+        const bool lenOk = be16(b, p2 + 2) == 4;
+        const bool crcOk = be32(b, p2 + 4) == (QXmppUtils::generateCrc32(patchedPrefix(b, p2, p2 - 20 + 8)) ^ 0x5354554eu);
+        expect = expect && lenOk && crcOk;
+#ifndef KF_stun_no_integrity
+        if (var == V_FP && !key.isEmpty()) expect = false;          // C15: nothing was authenticated
+#endif
+    }
+    if (hasMi && !key.isEmpty()) {
+        vp_assert(!ok || expect, "C14 a message carrying MESSAGE-INTEGRITY is accepted under a key only if length is 20 and the HMAC over the adjusted prefix matches (and a FINGERPRINT, if present, is the CRC)");
+        vp_assert(ok || !expect, "C14 a message whose MESSAGE-INTEGRITY (and FINGERPRINT) verify is accepted");
+    } else {
+        vp_assert(ok == expect, "C14 FINGERPRINT / MESSAGE-INTEGRITY acceptance");
+    }
+    if (ok) {
+        if (var == V_PRIO_MI) vp_assert(r.priority() == be32(b, 24), "C14 attribute in front of MESSAGE-INTEGRITY is decoded");
+        if (var == V_MI_PRIO) vp_assert(r.priority() == 0, "C14 an attribute after MESSAGE-INTEGRITY other than FINGERPRINT is ignored");
+        if (var == V_MI_MI && !key.isEmpty()) vp_assert(vp_hmac_calls == 2, "C14 a second MESSAGE-INTEGRITY after the first is ignored, not verified");   // 1 decode + 1 harness
+    }
+}
+
+// ---------------------------------------------------------------------------------------------------------------------------
+// (5) safety on arbitrary bytes, and C15 (i) decode-implies-authenticated.
+// cfg0 = buffer size N (header length field is the valid value N-20: everything else arbitrary), cfg1 = key length bound.
+// Safety = cbmc's pointer/bounds checks in the translated code + the readRawData destination contract in the stream model +
+// unwinding assertion of the attribute loop (done strictly increases: at most (N-20)/4 iterations).
+static bool decodeAny(bool c15)
+{
+    const unsigned n = vp_cfg0(), kmax = vp_cfg1();
+    QByteArray b = freshBytes(n, n);
+    put16(b, 2, n - 20);
+    QByteArray key = kmax ? freshBytes(1, kmax) : QByteArray();
+    QXmppStunMessage r;
+    const bool ok = r.decode(b, key, nullptr);
+    if (c15) vp_assert(!ok || key.isEmpty() || vp_hmac_calls > 0, "C15 decode under a non-empty key returns true only if a MESSAGE-INTEGRITY attribute was verified");
+    return ok;
+}
+extern "C" void h_dec_any() { decodeAny(false); }
+extern "C" void h_auth_any() { decodeAny(true); }
+// truncated packets and packets whose length field does not match: rejected, nothing else is read
+extern "C" void h_dec_short()
+{
+    QByteArray b = freshBytes(0, 19); QByteArray key = freshBytes(0, 1);
+    QXmppStunMessage r;
+    vp_assert(!r.decode(b, key, nullptr), "C14 a packet shorter than the STUN header is rejected");
+    quint32 cookie = 7; QByteArray id;
+    vp_assert(QXmppStunMessage::peekType(b, cookie, id) == 0, "C14 peekType: a packet shorter than the STUN header is not STUN");
+}
+extern "C" void h_dec_badlen()
+{
+    const unsigned n = vp_cfg0();
+    QByteArray b = freshBytes(n, n); QByteArray key = freshBytes(0, 1);
+    vp_assume(be16(b, 2) != n - 20);
+    QXmppStunMessage r;
+    vp_assert(!r.decode(b, key, nullptr), "C14 a packet whose length field differs from the datagram size is rejected");
+    quint32 cookie = 7; QByteArray id;
+    vp_assert(QXmppStunMessage::peekType(b, cookie, id) == 0, "C14 peekType: wrong length field is not STUN");
+}
+extern "C" void h_peek()
+{
+    const unsigned n = vp_cfg0();
+    QByteArray b = freshBytes(n, n); put16(b, 2, n - 20);
+    quint32 cookie = 7; QByteArray id;
+    const quint16 t = QXmppStunMessage::peekType(b, cookie, id);
+    vp_assert(t == be16(b, 0) && cookie == be32(b, 4), "C14 peekType returns the type and cookie of the header");
+    vp_assert(id.size() == 12 && sameBytesAt(b, 8, id), "C14 peekType returns the transaction id");
+}
+
+// ---------------------------------------------------------------------------------------------------------------------------
+// C15 (ii): priority formulas of RFC 5245 4.1.2.1 and 5.7.2
+extern "C" void h_prio_cand()
+{
+    QXmppJingleCandidate c; const int type = vp_int(), comp = vp_int(), localPref = vp_int();
+    vp_assume(type >= 0 && type <= 3);                       // QXmppJingleCandidate::Type
+    vp_assume(comp >= 1 && comp <= 256);                     // RFC 5245: component ID 1..256
+    vp_assume(localPref >= 0 && localPref <= 65535);
+    vp_cand_set(&c, type, comp, 0);
+    const quint32 p = candidatePriority(c, localPref);
+    const quint64 typePref = type == QXmppJingleCandidate::HostType ? 126 : type == QXmppJingleCandidate::PeerReflexiveType ? 110 : type == QXmppJingleCandidate::ServerReflexiveType ? 100 : 0;
+    const quint64 expected = (quint64(1) << 24) * typePref + (quint64(1) << 8) * quint64(localPref) + quint64(256 - comp);
+    vp_assert(quint64(p) == expected, "C15 candidate priority = 2^24*typePref + 2^8*localPref + (256 - component), no overflow");
+    const quint32 pd = candidatePriority(c);
+    vp_assert(quint64(pd) == (quint64(1) << 24) * typePref + (quint64(1) << 8) * 65535u + quint64(256 - comp), "C15 default local preference is 65535");
+}
+extern "C" void h_prio_pair()
+{
+    VpRaw<CandidatePair> pair;                                // QObject part is never touched by priority()
+    alignas(16) static char transport[64];
+    QXmppJingleCandidate local, remote; const quint32 lp = vp_u32(), rp = vp_u32(); const bool controlling = vp_bool(); const int comp = vp_int();
+    vp_cand_set(&local, 0, comp, int(lp)); vp_cand_set(&remote, 0, comp, int(rp));
+    vp_fake_transport(transport, &local);
+    new (&pair->remote) QXmppJingleCandidate(remote);
+    pair->transport = reinterpret_cast<QXmppIceTransport *>(transport);
+    pair->m_component = comp; pair->m_controlling = controlling;
+    const quint64 got = pair->priority();
+    const quint64 G = controlling ? lp : rp, D = controlling ? rp : lp;
+    const quint64 mn = G < D ? G : D, mx = G < D ? D : G;
+    vp_assert(got == (mn << 32) + 2 * mx + (G > D ? 1 : 0), "C15 pair priority = 2^32*min(G,D) + 2*max(G,D) + (G>D), 64-bit");
 }
